@@ -655,6 +655,94 @@ Qed.
 
 End ArrayProofs.
 
+(* pvAddBackGrow(const Item&, true_type): the path of nothrow-relocatable items (copy into a stack buffer, grow, relocate) *)
+Lemma inrng_1 r b l : inrng r b 1 l = loc_eqb l (r, b).
+Proof. rewrite inrng_S, inrng_0. apply orb_false_r. Qed.
+
+Theorem array_addback_grow_nt_post mgr isz d ext s capacity arg tmp :
+  arr_world mgr isz d ext s -> capacity <> O -> ext arg = true -> ext tmp = false -> fst tmp < 0 ->
+  post (array_addback_grow_nt NTM mgr isz d capacity arg tmp) s
+       (fun d' s' => arr_world mgr isz d' ext s' /\ a_count d' = S (a_count d) /\ a_cap d' = capacity)
+       (fun s' => arr_world mgr isz d ext s').
+Proof.
+  intros W Hc Ha Ht Htn. pose proof W as (H & Hc0 & Hit & Hext & Hnb).
+  set (ext' := fun l => loc_eqb l tmp || ext l).
+  assert (Htmp_out : forall d0 n0, (a_cap d0 <> O -> 0 <= a_items d0) -> (a_cap d0 = O -> n0 = O) ->
+             inrng (a_items d0) 0 n0 tmp = false).
+  { intros d0 n0 H1 H2. destruct (inrng_spec (a_items d0) 0 n0 tmp) as [[Ea Eb]|]; [|reflexivity].
+    destruct (Nat.eq_dec (a_cap d0) O) as [E|E]; [rewrite (H2 E) in Eb; simpl in Eb; lia|]. specialize (H1 E). lia. }
+  assert (T0 : inrng (a_items d) 0 (a_count d) tmp = false).
+  { apply Htmp_out; [intros E; specialize (Hit E); lia|exact Hc0]. }
+  unfold array_addback_grow_nt. apply post_bind. unfold om_copy.
+  eapply post_conseq; [apply (p_copy_post tmp arg s _ _ _ H)| |].
+  - unfold arr_occ. rewrite Ha. apply orb_true_r.
+  - unfold arr_occ. rewrite T0, Ht. reflexivity.
+  - (* the copy succeeded *)
+    intros u1 s1 H1.
+    assert (W1 : arr_world mgr isz d ext' s1).
+    { destruct H1 as (A & B & C). unfold arr_world. rewrite C. split; [split; [|split; [exact B|exact C]]|].
+      - intros l. rewrite A. unfold arr_occ, ext'.
+        destruct (loc_eqb l tmp), (inrng (a_items d) 0 (a_count d) l), (ext l); reflexivity.
+      - split; [exact Hc0|]. split; [exact Hit|]. split; [|exact Hnb].
+        intros l E. unfold ext' in E. destruct (loc_eqb_spec l tmp) as [El|]; [subst l; exact Htn|]. apply Hext. exact E. }
+    apply post_bind. apply post_catch.
+    eapply post_conseq; [apply (array_regrow_post NTM mgr isz d ext' s1 capacity W1 Hc)| |].
+    + (* grown *)
+      intros d' s2 (W2 & Ecnt & Ecap). pose proof W2 as (H2 & Hc0' & Hit' & Hext' & Hnb').
+      assert (Hcap' : a_cap d' <> O) by congruence. specialize (Hit' Hcap').
+      apply post_bind.
+      assert (Hr : reloc_pre (arr_occ d' ext') (fst tmp) (snd tmp) (a_items d') (Z.of_nat (a_count d)) 1).
+      { intros k Hk. assert (k = 0) by lia. subst k. rewrite !Z.add_0_r. unfold arr_occ, ext'. split.
+        - replace (fst tmp, snd tmp) with tmp by (destruct tmp; reflexivity). rewrite loc_eqb_refl. rewrite orb_true_r. reflexivity.
+        - rewrite Ecnt.
+          destruct (inrng_spec (a_items d') 0 (a_count d) (a_items d', Z.of_nat (a_count d))) as [[_ Eb]|]; [simpl in Eb; lia|].
+          destruct (loc_eqb_spec (a_items d', Z.of_nat (a_count d)) tmp) as [E|]; [rewrite <- E in Htn; simpl in Htn; lia|].
+          simpl. destruct (ext (a_items d', Z.of_nat (a_count d))) eqn:E; [|reflexivity].
+          specialize (Hext _ E). simpl in Hext. lia. }
+      eapply post_conseq; [apply (om_relocate_post NTM _ _ _ _ _ s2 _ _ _ H2 Hr)| |intros s3 [E _]; discriminate].
+      intros u3 s3 (A & B & C). apply post_ret. split; [|split; [reflexivity|exact Ecap]].
+      unfold arr_world. cbn [a_items a_count a_cap]. rewrite C.
+      split; [split; [|split; [exact B|exact C]]|].
+      * intros l. rewrite A. unfold arr_occ, ext'. cbn [a_items a_count]. rewrite Ecnt, !inrng_1.
+        pose proof (inrng_snoc (a_items d') 0 (a_count d) l) as E. rewrite Z.add_0_l in E. rewrite E.
+        replace (fst tmp, snd tmp) with tmp by (destruct tmp; reflexivity).
+        destruct (loc_eqb_spec l tmp) as [El|]; cbn [negb andb orb].
+        -- subst l. rewrite Ht.
+           rewrite (Htmp_out d' (a_count d)) by (intros; lia || congruence).
+           destruct (loc_eqb_spec tmp (a_items d', Z.of_nat (a_count d))) as [E2|]; [rewrite E2 in Htn; simpl in Htn; lia|reflexivity].
+        -- destruct (loc_eqb l (a_items d', Z.of_nat (a_count d))), (inrng (a_items d') 0 (a_count d) l), (ext l); reflexivity.
+      * split; [intros E; congruence|]. split; [intros _; exact Hit'|]. split; [exact Hext|exact Hnb'].
+    + (* growing threw: destroy the stack copy *)
+      intros s2 W2. pose proof W2 as (H2 & _ & Hit2 & _ & Hnb2).
+      eapply post_conseq; [apply (om_destroy_n_post (fst tmp) 1 (snd tmp) s2 _ _ _ H2)| |intros ? []].
+      * intros k Hk. assert (k = 0) by lia. subst k. rewrite Z.add_0_r. unfold arr_occ, ext'.
+        replace (fst tmp, snd tmp) with tmp by (destruct tmp; reflexivity). rewrite loc_eqb_refl. rewrite orb_true_r. reflexivity.
+      * intros u3 s3 (A & B & C). unfold arr_world. rewrite C.
+        split; [split; [|split; [exact B|exact C]]|].
+        -- intros l. rewrite A. unfold arr_occ, ext'. rewrite inrng_1.
+           replace (fst tmp, snd tmp) with tmp by (destruct tmp; reflexivity).
+           destruct (loc_eqb_spec l tmp) as [El|]; cbn [negb andb orb]; [|reflexivity].
+           subst l. rewrite T0, Ht. reflexivity.
+        -- split; [exact Hc0|]. split; [exact Hit2|]. split; [exact Hext|exact Hnb2].
+  - (* the copy threw *)
+    intros s1 (A & B & C). unfold arr_world. rewrite C. split; [split; [exact A|split; [exact B|exact C]]|]. auto.
+Qed.
+
+(* the tag dispatch of pvAddBackGrow(const Item&) *)
+Theorem array_addback_post c mgr isz d ext s capacity arg tmp :
+  arr_world mgr isz d ext s -> capacity <> O -> ext arg = true -> ext tmp = false -> fst tmp < 0 ->
+  post (array_addback c mgr isz d capacity arg tmp) s
+       (fun d' s' => arr_world mgr isz d' ext s' /\ a_count d' = S (a_count d) /\ a_cap d' = capacity)
+       (fun s' => arr_world mgr isz d ext s').
+Proof.
+  intros W Hc Ha Ht Htn. unfold array_addback. destruct c; cbn [nothrow_reloc].
+  - apply (array_addback_grow_nt_post mgr isz d ext s capacity arg tmp W Hc Ha Ht Htn).
+  - apply (array_addback_grow_post CPO mgr isz d ext s capacity arg W Hc Ha).
+Qed.
+
+
+
+
 (* ------------------------------------------------------------------ constructor catch blocks *)
 Definition is_stuck {A} (r : outcome A * rstate) : bool := match r with (Stuck, _) => true | _ => false end.
 
